@@ -34,6 +34,13 @@ def space_descs(tier, max_degree=None, patterns=True):
                     uni = len(set(w)) == 1
                     for flag in ((False, True) if (uni and d == 3) else (False,)):
                         out.append({'degree': d, 'periodic': per, 'widths': list(w), 'flag': flag, 'scale': 1.0, 'offset': 0.0})
+                if patterns and nc >= 3:
+                    # almost uniform (relative grading 1e-6 per cell) and a very small length unit: nothing may decide
+                    # "uniform" with a tolerance
+                    out.append({'degree': d, 'periodic': per, 'widths': [1 + 1e-6 * i for i in range(nc)], 'flag': False, 'scale': 1.0,
+                                'offset': 0.0, 'tag': 'graded1e-6'})
+                    out.append({'degree': d, 'periodic': per, 'widths': [1 + (i % 3) for i in range(nc)], 'flag': False, 'scale': 1e-8,
+                                'offset': 0.0})
                 # a scaled / shifted uniform copy (non-integer dx) and a wide uniform one
                 out.append({'degree': d, 'periodic': per, 'widths': [1] * nc, 'flag': False, 'scale': 0.1, 'offset': 0.3})
                 if d == 3:
@@ -57,7 +64,7 @@ def make_space(desc):
 def space_key(desc):
     return '%s-d%d-%s-w%s-s%g' % ('per' if desc['periodic'] else 'cl', desc['degree'],
                                  'cu' if (desc['flag'] and desc['degree'] == 3) else ('U' if desc['flag'] else 'nu'),
-                                 ''.join(map(str, desc['widths'])), desc['scale'])
+                                 desc.get('tag') or ''.join(map(str, desc['widths'])), desc['scale'])
 
 
 def x_alphabet(breaks, tier, degree):
